@@ -91,19 +91,45 @@ func cmdCheck(args []string) int {
 		}
 		out.engines = append(out.engines, eng)
 		var runs []*FnRun
+		selected := map[string]bool{}
+		var order []string
 		for _, pat := range spec.Funcs {
+			if pat == "auto" {
+				// every function whose contract has a clause claimed for this property
+				for _, key := range sortedKeys(eng.funcs) {
+					fc := eng.contractFor(eng.funcs[key])
+					if fc == nil {
+						continue
+					}
+					for _, c := range fc.Clauses {
+						for _, t := range c.Tags {
+							if t == prop && !selected[key] {
+								selected[key] = true
+								order = append(order, key)
+							}
+						}
+					}
+				}
+				continue
+			}
 			n := 0
 			for _, key := range sortedKeys(eng.funcs) {
 				if globMatch(pat, key) {
 					n++
-					r := eng.verifyFunc(eng.funcs[key])
-					pkgNameOf[r] = strings.SplitN(key, ":", 2)[0]
-					runs = append(runs, r)
+					if !selected[key] {
+						selected[key] = true
+						order = append(order, key)
+					}
 				}
 			}
 			if n == 0 && unitHasPkg(eng, pat) {
 				out.engineErrs = append(out.engineErrs, "function under contract not found: "+pat)
 			}
+		}
+		for _, key := range order {
+			r := eng.verifyFunc(eng.funcs[key])
+			pkgNameOf[r] = strings.SplitN(key, ":", 2)[0]
+			runs = append(runs, r)
 		}
 		// contracts that bind to nothing
 		for _, p := range eng.loadedPkgs {
